@@ -102,6 +102,10 @@ def run(ctx):
         for fl in variants:
             fl = list(dict.fromkeys(fl))
             jobs.append((len(jobs), name, src, fl, rng.getrandbits(32), quick, cdrv.prepare_compile(src, fl, max_states=120)))
+    for nlit in (253, 254, 255, 256):
+        src_b = 'parser { "%s"; }' % ("ab" * 200)[:nlit]
+        for fl in (["-O1", "-findirect-start-ptr"], ["-O0", "-findirect-start-ptr"]):
+            jobs.append((len(jobs), "literal%d" % nlit, src_b, fl, rng.getrandbits(32), quick, cdrv.prepare_compile(src_b, fl, max_states=400)))
     with ThreadPoolExecutor(max_workers=common.NCPU) as ex:
         results = list(ex.map(job, jobs))
     good = [r for r in results if r["ok"]]
